@@ -37,6 +37,8 @@ def queries(U, dag):
                 qs.append(("kcuts", (n, k)))
     else:
         qs += [("is_cyclic", None), ("topo_sort", None), ("levelize", None), ("fanin_depth", U[0]), ("fanout_depth", U[-1]), ("fanout_depth", [U[0], U[1]])]
+        for a in [U[0], [U[0], U[1]], [U[1], U[0]], [U[-1], U[0], U[1]]]:
+            qs += [("transitive_fanin", a), ("transitive_fanout", a), ("fanin", a), ("fanout", a)]
     return qs
 
 
@@ -162,10 +164,10 @@ def spec(q, U, dag, S, out, cache):
         return setspec("fanin", lambda v: z3.Or([edge(v, n) for n in ns]), "query:fanin")
     if name == "fanout":
         return setspec("fanout", lambda v: z3.Or([edge(n, v) for n in ns]), "query:fanout")
-    if name == "transitive_fanin":
-        return setspec("tfi", lambda v: z3.Or([R[(v, n)] for n in ns]), "query:transitive_fanin")
+    if name == "transitive_fanin":  # union of the proper ancestors of each listed node (a node on a cycle is not its own ancestor)
+        return setspec("tfi", lambda v: z3.Or([R[(v, n)] for n in ns if n != v] + [z3.BoolVal(False)]), "query:transitive_fanin")
     if name == "transitive_fanout":
-        return setspec("tfo", lambda v: z3.Or([R[(n, v)] for n in ns]), "query:transitive_fanout")
+        return setspec("tfo", lambda v: z3.Or([R[(n, v)] for n in ns if n != v] + [z3.BoolVal(False)]), "query:transitive_fanout")
     if name == "startpoints":
         isp = lambda v: specs.is_in(S.typ(v), [TS["input"], TS["bb_output"]])
         if ns is None:
